@@ -325,11 +325,15 @@ impl Segment {
             .with_error_context(|error| {
                 format!("Failed to delete log file: {}. {error}", self.log_path)
             });
+        #[cfg(feature = "iggy_verif")]
+        crate::verif::fs_event("delete", &self.log_path, 0);
         let _ = remove_file(&self.index_path)
             .await
             .with_error_context(|error| {
                 format!("Failed to delete index file: {}. {error}", self.index_path)
             });
+        #[cfg(feature = "iggy_verif")]
+        crate::verif::fs_event("delete", &self.index_path, 0);
 
         let segment_size_bytes = self.size_bytes.as_bytes_u64();
         self.size_of_parent_stream
